@@ -823,6 +823,8 @@ impl World {
             "objapi" => self.op_objapi(r, op),
             "failcommit" => self.op_failcommit(r, op),
             "faults" => self.op_faults(r, op["seed"].as_u64().unwrap()),
+            "foreign" => self.op_foreign(r, op["name"].as_str().unwrap(), op["bytes"].as_str().unwrap_or("00")),
+            "failmeld" => self.op_failmeld(r, op["from"].as_u64().unwrap() as usize % self.reps.len(), op["fail"].as_array().map(|a| a.iter().map(|x| x.as_u64().unwrap() as usize).collect()).unwrap_or_default()),
             "replay_elsewhere" => self.op_replay_elsewhere(r, op["to"].as_u64().unwrap() as usize % self.reps.len()),
             "deep" => self.op_deep(r, op["depth"].as_u64().unwrap() as usize, op["where"].as_str().unwrap_or("doc")),
             "sync" => self.op_sync(),
@@ -1690,6 +1692,87 @@ impl World {
         }
         for (p, w) in fails {
             self.fail(p, w);
+        }
+    }
+
+    /// an item that is neither a block nor a pack appears in a replica's storage (a lock file, a signature next
+    /// to a block, an attachment): it is nothing to the replica, and meld carries it along byte for byte
+    fn op_foreign(&mut self, r: usize, name: &str, hexbytes: &str) {
+        if !self.reps[r].be.is_sim() {
+            return;
+        }
+        if self.reps[r].be.snapshot().contains_key(name) {
+            return;
+        }
+        let before = self.reps[r].m.as_ref().map(obs_full);
+        self.reps[r].be.put(name, &hex::decode(hexbytes).unwrap_or_default());
+        self.emit("put", r, "ok", json!({}));
+        self.stat("foreign_item");
+        if let (Some(b), Some(m)) = (before, self.reps[r].m.as_ref()) {
+            if obs_full(m) != b {
+                self.fail("C12", "an item that is neither block nor pack changed the replica".into());
+            }
+        }
+    }
+
+    /// meld while the receiver's storage fails some of its writes: the call returns, nothing the replica shows
+    /// changes, nothing misnamed or foreign is stored, and a later meld without faults transfers the rest
+    fn op_failmeld(&mut self, r: usize, from: usize, fail: Vec<usize>) {
+        if r == from {
+            return;
+        }
+        let store = match &self.reps[r].be {
+            Backend::Sim(s) => s.clone(),
+            _ => return self.op_meld(r, from),
+        };
+        let (ra, rb) = two(&mut self.reps, r, from);
+        let (ma, mb) = match (&ra.m, &rb.m) {
+            (Some(a), Some(b)) => (a, b),
+            _ => return,
+        };
+        let full_before = obs_full(ma);
+        let items_before = ra.be.snapshot();
+        let from_items = rb.be.snapshot();
+        store.set_fail(fail.clone());
+        let res = catch_unwind(AssertUnwindSafe(|| ma.meld(mb).is_ok()));
+        store.set_fail(vec![]);
+        store.take_log();
+        let mut fails: Vec<(&str, String)> = vec![];
+        let aborted = res.is_err();
+        if aborted {
+            fails.push(("C08", format!("meld aborted the calling thread when the storage failed write(s) {:?}", fail)));
+            fails.push(("C09", format!("meld aborted the calling thread when the storage failed write(s) {:?}", fail)));
+        }
+        let ma = ra.m.as_ref().unwrap();
+        if !aborted && obs_full(ma) != full_before {
+            fails.push(("C12", "a meld with failing writes changed the visible state".into()));
+        }
+        let items_after = ra.be.snapshot();
+        for (k, v) in &items_after {
+            if !items_before.contains_key(k) {
+                match from_items.get(k) {
+                    Some(v2) if v2 == v => {}
+                    _ => fails.push(("C11", format!("a meld with failing writes stored item {} whose bytes differ from the source replica", k))),
+                }
+            }
+        }
+        if let Some(w) = check_no_mixture(&items_after) {
+            fails.push(("C09", format!("after a meld with failing writes the storage reopens to a mixed state: {}", w)));
+        }
+        ra.dirty = true;
+        self.stat("meld_with_failing_writes");
+        if aborted {
+            // locks may be poisoned: the replica is not used any further
+            self.reps[r].m = None;
+        } else {
+            self.emit("meld", r, "partial", json!({"from": from}));
+        }
+        for (p, w) in fails {
+            self.fail(p, w);
+        }
+        if !aborted {
+            // the rest arrives with the next, undisturbed meld
+            self.op_meld(r, from);
         }
     }
 
@@ -2909,7 +2992,18 @@ pub fn gen_op(w: &World, g: &mut Rng, sim_faults: bool) -> Value {
         }
         34..=49 => json!({"op": "commit", "r": r, "info": info(g)}),
         50..=59 => {
-            if g.chance(1, 25) {
+            if g.chance(1, 20) {
+                let name = *g.pick(&["LOCK", "notes.txt", "README", "x.delta.sign", "ab.pack.bak", "attachment.bin"]);
+                json!({"op": "foreign", "r": r, "name": name, "bytes": hex::encode(format!("foreign{}", g.below(5)))})
+            } else if g.chance(1, 12) {
+                let fail: Vec<usize> = match g.below(4) {
+                    0 => vec![0],
+                    1 => vec![1],
+                    2 => vec![0, 1],
+                    _ => vec![0, 2],
+                };
+                json!({"op": "failmeld", "r": r, "from": other, "fail": fail})
+            } else if g.chance(1, 25) {
                 json!({"op": "meld", "r": r, "from": r})
             } else {
                 json!({"op": "meld", "r": r, "from": other})
@@ -2989,7 +3083,9 @@ pub fn main(args: &[String]) {
     let fails_path = format!("{}/fails.jsonl", out);
     let _ = std::fs::remove_file(&fails_path);
     *CURRENT.lock().unwrap() = Some((fails_path.clone(), String::new()));
-    start_watchdog(30_000);
+    // (no operation of any generated or corpus history takes a second on an idle machine; the limit is generous
+    // because checks may run while the machine is saturated; MVERIF_WATCHDOG_MS overrides it)
+    start_watchdog(std::env::var("MVERIF_WATCHDOG_MS").ok().and_then(|x| x.parse().ok()).unwrap_or(60_000));
     let mut ff = std::fs::File::create(&fails_path).unwrap();
     let mut summary = Map::new();
     let mut stats_total: BTreeMap<String, usize> = BTreeMap::new();
